@@ -348,9 +348,6 @@ impl Ac {
     fn rule_set(&self, r: Rules) -> RuleSet {
         RuleSet { primary_role: self.rule_of(r[0]), recovery_role: self.rule_of(r[1]), confirmation_role: self.rule_of(r[2]) }
     }
-    fn proposal(&self, p: Prop) -> RecoveryProposal {
-        RecoveryProposal { rule_set: self.rule_set(p.rules()), timed_recovery_delay_in_minutes: p.delay() }
-    }
     fn rules_view(&self, r: Rules) -> [Option<AccessRule>; 3] {
         [Some(self.rule_of(r[0])), Some(self.rule_of(r[1])), Some(self.rule_of(r[2]))]
     }
@@ -493,6 +490,39 @@ impl Ac {
         (mb.build(), proofs)
     }
 
+    /// readable rendering of the controller view (rules shown as key names)
+    fn short(&self, v: &View) -> String {
+        let name = |r: &Option<AccessRule>| -> String {
+            match r {
+                None => "<missing>".into(),
+                Some(AccessRule::DenyAll) => "DenyAll".into(),
+                Some(AccessRule::AllowAll) => "AllowAll".into(),
+                Some(x) => (0..4).find(|k| *x == self.rule_of(H::Key(*k as u8))).map(|k| format!("sig(K{k})")).unwrap_or_else(|| format!("{x:?}")),
+            }
+        };
+        let prop = |s: &String| -> String {
+            [Prop::P1, Prop::P2, Prop::P1d, Prop::P1c]
+                .iter()
+                .find(|p| format!("{:?}", RecoveryProposal { rule_set: self.rule_set(p.rules()), timed_recovery_delay_in_minutes: p.delay() }) == *s)
+                .map(|p| format!("{p:?}"))
+                .unwrap_or_else(|| s.clone())
+        };
+        format!(
+            "{{rules: [{}, {}, {}], asset held: {}, locked: {}, primary's proposal: {:?}, primary's withdraw attempt: {}, recovery's proposal: {:?}, recovery's withdraw attempt: {}, delay: {:?}, fee vault: {}}}",
+            name(&v.rules[0]),
+            name(&v.rules[1]),
+            name(&v.rules[2]),
+            v.held,
+            v.locked,
+            v.p_rec.as_ref().map(prop),
+            v.p_wd,
+            v.r_rec.as_ref().map(|(p, t)| (prop(p), t.map(|t| format!("timed, now - allowed_after = {t} min")).unwrap_or("untimed".into()))),
+            v.r_wd,
+            v.delay,
+            v.fee_vault
+        )
+    }
+
     fn compute_fp(&self, st: &St) -> Vec<u8> {
         mc_core::fp128(format!("{:?}#{}", st.view, st.ghost.canon()).as_bytes())
     }
@@ -585,7 +615,15 @@ impl Machine for Ac {
         let kind = call_kind(&c);
         let post = self.view(&mut st.sim).map_err(|e| ("state-unreadable".to_string(), e))?;
         let auth_ok = g.auth_ok(a, &c);
-        let describe = |why: &str| format!("{op:?}: {why}; ghost before = {g:?}; controller before = {pre:?}; after = {post:?}; receipt = {} {}", receipt_class(&receipt), mc_core::truncate(&failure_text(&receipt), 200));
+        let describe = |why: &str| {
+            format!(
+                "{op:?}: {why}; reference before = {g:?}; controller before = {}; after = {}; receipt = {} {}",
+                self.short(&pre),
+                self.short(&post),
+                receipt_class(&receipt),
+                mc_core::truncate(&failure_text(&receipt), 200)
+            )
+        };
 
         // ---- I1: rules / custody change only when justified ----
         let rules_changed = post.rules != pre.rules;
@@ -837,11 +875,11 @@ pub fn run(ctx: Ctx) -> ! {
         };
         let m = Ac::build(delay, proto);
         let mut st = m.init();
-        println!("base {base}: controller {:?}", st.view);
+        println!("base {base}: controller {}", m.short(&st.view));
         let hist: Vec<Op> = case["history"].as_array().map(|a| a.iter().filter_map(|s| s.as_str()).map(parse_op).collect()).unwrap_or_default();
         for op in &hist {
             match m.step(&mut st, op) {
-                Ok(class) => println!("{op:?} -> {class}\n    controller: {:?}\n    ghost: {:?}", st.view, st.ghost),
+                Ok(class) => println!("{op:?} -> {class}\n    controller: {}\n    reference:  {:?}", m.short(&st.view), st.ghost),
                 Err((k, w)) => {
                     println!("{op:?} -> VIOLATION {k}: {w}");
                     ctx.violation(k, w, case.clone());
